@@ -204,7 +204,7 @@ func ZZ_C07_TransportFault(q, what, k, exmode int) {
 	switch what {
 	case 0:
 		tr.failWriteAt = k
-	case 1:
+	case 1, 3:
 		tr.failFlushAt = k
 	case 2:
 		tr.readErr = fault
@@ -220,7 +220,15 @@ func ZZ_C07_TransportFault(q, what, k, exmode int) {
 	ch := newChannelWith(vrtBackground(), pl, tr, AsyncExecutor(), 1, q, true).(*channel)
 	pl.ServeChannel(ch)
 	var errs [3]error
-	if what != 2 {
+	if what == 3 {
+		// messages through the pipeline (Channel.Write -> head handler): the flush failure surfaces inside the head
+		// handler as (n written, error) and must be raised as an exception like any other transport failure
+		for i := 0; i < 3 && ch.IsActive(); i++ {
+			i := i
+			pv := vrt.Panics(func() { ch.Write([]byte{byte(0x61 + i)}) })
+			vrt.Assert(pv == nil, "c07-panic-does-not-escape-into-the-caller")
+		}
+	} else if what != 2 {
 		for i := 0; i < 3; i++ {
 			i := i
 			pv := vrt.Panics(func() { _, errs[i] = ch.Write1([]byte{byte(0x61 + i)}) })
@@ -228,13 +236,13 @@ func ZZ_C07_TransportFault(q, what, k, exmode int) {
 		}
 	}
 	dead := vrt.Quiesce()
-	fired := what == 2 || (what == 0 && tr.writes >= k) || (what == 1 && tr.flushes >= k)
+	fired := what == 2 || (what == 0 && tr.writes >= k) || ((what == 1 || what == 3) && tr.flushes >= k)
 	if !fired {
 		// the schedule batched the writes so that the k-th transport call never happened
 		vrt.Reach("c07-fault-not-reached")
 		return
 	}
-	if q > 0 || what == 2 {
+	if q > 0 || what == 2 || what == 3 {
 		// background sender / read loop failure: the channel is closed with the fault
 		vrt.Assert(!dead, "c07-no-thread-left-blocked")
 		vrt.Assert(tr.closes == 1 && !ch.IsActive(), "c07-transport-fault-closes-channel")
